@@ -164,7 +164,13 @@ def run_property(mod, tier, replay=None):
     else:
         ctx = multiprocessing.get_context("fork")
         with ctx.Pool(nw, maxtasksperchild=1) as pool:
-            results = list(pool.imap_unordered(_run_shard, [(mod.__name__, s) for s in shards], chunksize=1))
+            for r in pool.imap_unordered(_run_shard, [(mod.__name__, s) for s in shards], chunksize=1):
+                results.append(r)
+                if r.get("violation") and not os.environ.get("VERIF_ALL_SHARDS"):
+                    # one confirmed violation decides the run: do not wait for the other shards (each of them may be busy confirming its
+                    # own finding on the slow stock simulator); VERIF_ALL_SHARDS=1 collects every shard's finding instead
+                    pool.terminate()
+                    break
     errs = [r["error"] for r in results if "error" in r]
     if errs:
         sys.stderr.write("HARNESS ERROR in %s:\n%s\n" % (pid, errs[0]))
